@@ -3,7 +3,7 @@ import logging
 
 from .util import Source, get_name_usages, np
 from .name import MultiName, ArgumentName, ImportedName
-from .scope import SourceScope, ClassScope
+from .scope import SourceScope, ClassScope, CompScope
 from .nast import extract_scope
 from .compat import itervalues
 from .evaluator import EvalCtx
@@ -83,7 +83,12 @@ def lint(project, source, filename=None, debug=False):
             continue
         if getattr(name, 'is_star', None):
             continue
-        if isinstance(flow.scope, IGNORED_SCOPES):
+        owner = flow.scope
+        while isinstance(owner, CompScope):
+            # comprehension variables are reported like the other names of
+            # the scope the comprehension is written in
+            owner = owner.parent
+        if isinstance(owner, IGNORED_SCOPES):
             if isinstance(name, ImportedName):
                 if name.module == '__future__':
                     continue
